@@ -17,7 +17,7 @@ Qed.
 
 Lemma main_messages_expand : forall e fl,
   main_messages (expand_with e fl) =
-    [keys_msg e; data_msg e; state_msg e fl; event_type_msg e; event_msg e] ++ map schema_msg (e_schemas e).
+    [keys_msg e; data_msg e; state_msg e fl; event_type_msg e; event_msg e] ++ flat_map schema_msgs (e_schemas e).
 Proof. intros. rewrite main_messages_eq. apply main_file_messages. Qed.
 
 Lemma services_of_app : forall a b, services_of (a ++ b) = services_of a ++ services_of b.
@@ -79,9 +79,10 @@ Proof.
   intros e fl. unfold expand_with. rewrite !services_of_app, services_of_query.
   rewrite (services_of_flat_map _ (fun c => [command_service e c]) _ (services_of_command e)).
   rewrite (services_of_flat_map _ (fun _ => []) _ (fun s => eq_refl : services_of (summary_components e s) = [])).
-  assert (E1 : services_of (map (fun sc => CMsg 0 (mkMsg (fst sc) None false (map of_ufield (snd sc)) []))
-                                (e_schemas e)) = []).
-  { induction (e_schemas e) as [|sc l IH]; [reflexivity|]. cbn [map]. exact IH. }
+  assert (E1 : services_of (map schema_component (e_schemas e)) = []).
+  { induction (e_schemas e) as [|sc l IH]; [reflexivity|]. cbn [map].
+    change (schema_component sc :: map schema_component l) with ([schema_component sc] ++ map schema_component l).
+    rewrite services_of_app, IH. destruct sc; reflexivity. }
   assert (E2 : forall l : list summary, flat_map (fun _ : summary => @nil osvc) l = []).
   { induction l; [reflexivity|assumption]. }
   assert (E3 : forall l, flat_map (fun c => [command_service e c]) l = map (command_service e) l).
@@ -194,8 +195,17 @@ Proof.
 Qed.
 
 (* ---- the expansion has exactly one KEYS, one STATE, one EVENT object ---------------------------- *)
-Lemma filter_schemas_nil : forall p l, filter (has_part p) (map schema_msg l) = [].
-Proof. intros p l. induction l as [|sc l IH]; [reflexivity|]. cbn [map filter]. exact IH. Qed.
+Lemma filter_schemas_nil : forall p l, filter (has_part p) (flat_map schema_msgs l) = [].
+Proof.
+  intros p l. induction l as [|sc l IH]; [reflexivity|]. cbn [flat_map]. rewrite filter_app, IH.
+  destruct sc; reflexivity.
+Qed.
+
+Lemma schema_msgs_unannotated : forall l m, In m (flat_map schema_msgs l) -> m_psm m = None.
+Proof.
+  intros l m H. apply in_flat_map in H. destruct H as [sc [_ H]].
+  destruct sc as [n fs|n fs|n os]; cbn in H; [destruct H as [<-|[]]|destruct H as [<-|[]]|destruct H]; reflexivity.
+Qed.
 
 Lemma good_parts_expand : forall e fl, good_parts (snake_name e) (main_messages (expand_with e fl)).
 Proof.
@@ -203,7 +213,7 @@ Proof.
   apply in_app_or in Hin. destruct Hin as [Hin|Hin].
   - cbn [In] in Hin. destruct Hin as [<-|[<-|[<-|[<-|[<-|[]]]]]]; cbn in Hm; inversion Hm; subst;
       split; auto.
-  - apply in_map_iff in Hin. destruct Hin as [sc [<- _]]. discriminate.
+  - rewrite (schema_msgs_unannotated _ _ Hin) in Hm. discriminate.
 Qed.
 
 Theorem include_any_order : forall e fl objs,
@@ -224,7 +234,7 @@ Proof.
       try (apply N.eqb_eq in E2); try (apply N.eqb_eq in E3); try (apply N.eqb_eq in E4); lia. }
   rewrite !(last_part_perm _ _ _ HP (Hone _)).
   rewrite main_messages_expand.
-  assert (Hs : forall p, last_part p (map schema_msg (e_schemas e)) = None).
+  assert (Hs : forall p, last_part p (flat_map schema_msgs (e_schemas e)) = None).
   { intros p. rewrite last_part_filter, filter_schemas_nil. reflexivity. }
   rewrite !last_part_app, !Hs. unfold annotated. rewrite existsb_app. reflexivity.
 Qed.
@@ -251,7 +261,9 @@ Lemma primary_json : forall ks,
   map f_json (filter f_primary (map (fun k => of_ufield (k_def k)) ks))
   = map uf_name (filter is_primary (map k_def ks)).
 Proof.
-  induction ks as [|[[n [pt k|nm|p f t] r o] s] ks IH]; [reflexivity| | |]; cbn [map filter k_def].
+  induction ks as [|[[n [pt k|nm|nm|nm|p f t] r o] s] ks IH]; [reflexivity| | | | |]; cbn [map filter k_def].
+  - exact IH.
+  - exact IH.
   - exact IH.
   - exact IH.
   - cbn [of_ufield uf_kind f_primary is_primary uf_name]. destruct p; cbn [map f_json]; [f_equal|]; exact IH.
@@ -313,7 +325,7 @@ Definition hijack_sample : entity :=
       [mkK (mkU (bs "fooId") (KKey true None None) false false) false]
       [mkU (bs "snap") (KObject (bs "Snapshot")) false false]
       [bs "ACTIVE"] [mkEv (bs "Create") []] [] [] None
-      [(bs "Snapshot", [mkU (bs "keys") (KObject (bs "FooKeys")) false false])].
+      [SObject (bs "Snapshot") [mkU (bs "keys") (KObject (bs "FooKeys")) false false]].
 
 Theorem legacy_inference_refuted :
   let cs := expand_with hijack_sample [] in
@@ -382,7 +394,7 @@ Proof.
   assert (S5 : include_with m_psm (Some (acc ++ [c2])) (event_msg e) = Some (acc ++ [the_entity e fl])).
   { unfold include_with. cbn [event_msg m_psm]. now apply upsert_at. }
   rewrite S1, S2, S3, S4, S5.
-  apply fold_include_unannotated. intros m Hm. apply in_map_iff in Hm. destruct Hm as [sc [<- _]]. reflexivity.
+  apply fold_include_unannotated. intros m Hm. now apply (schema_msgs_unannotated (e_schemas e)).
 Qed.
 
 Definition file_components (l : list (entity * list bytes)) : list component :=
